@@ -223,6 +223,29 @@ func testC12(t *testing.T, redisMode bool) {
 				// a new client registers while the others sync - with 1-3 simultaneous registration calls (a client
 				// that re-sends its registration, two processes started with one identity): in every one-at-a-time
 				// order each of them succeeds (the first one creates the registration, the others refresh it)
+				if r%2 == 1 {
+					// ... and the very first requests for ANOTHER collection arrive at the same moment (two clients of a
+					// collection that was created a moment ago and that no request has named yet)
+					cold := fmt.Sprintf("%s-cold%d", w.col, r)
+					if err := w.env.CreateCollection(cold); err == nil {
+						for g := 0; g < 2; g++ {
+							cpc := w.env.NewUnregisteredPackClient(cold, fmt.Sprintf("cold%d-%d", r, g))
+							wg.Add(1)
+							go func() {
+								defer wg.Done()
+								<-start
+								if err := cpc.Register(l1Deadline); err != nil {
+									if strings.Contains(err.Error(), "did not answer") {
+										regTimedOut = true
+									}
+									regMu.Lock()
+									regErrs = append(regErrs, err)
+									regMu.Unlock()
+								}
+							}()
+						}
+					}
+				}
 				pc := w.env.NewUnregisteredPackClient(w.col, fmt.Sprintf("late%d", r))
 				for g := 0; g < 1+r%3; g++ {
 					wg.Add(1)
@@ -243,7 +266,7 @@ func testC12(t *testing.T, redisMode bool) {
 			close(start)
 			wg.Wait()
 			if len(regErrs) > 0 && !regTimedOut {
-				c.failf("round %d: %d simultaneous registrations of one new client: %d of them were refused (each succeeds in every one-at-a-time order): %v", r, 1+r%3, len(regErrs), regErrs[0])
+				c.failf("round %d: %d simultaneous registrations of one new client (and, in odd rounds, of two clients of a collection nobody has named before): %d of them were refused (each succeeds in every one-at-a-time order): %v", r, 1+r%3, len(regErrs), regErrs[0])
 			}
 			if patchTimedOut || regTimedOut || badTimedOut {
 				c.failf("round %d: a concurrent patch / registration / refused create was never answered (patch=%v registration=%v refused-create=%v)", r, patchTimedOut, regTimedOut, badTimedOut)
